@@ -224,7 +224,10 @@ impl C14 {
 
     fn ipv6(&mut self, rep: &mut Report, rng: &mut Prng) {
         // RFC 8200: payload length 16 bit, counts the extension headers
-        let base = Ipv6Header::default();
+        let base = Ipv6Header {
+            payload_length: 0x1234,
+            ..Default::default()
+        };
         for len in probes(65535, &[]) {
             let mut h = base.clone();
             let r = h.set_payload_length(len);
@@ -347,7 +350,11 @@ impl C14 {
                     v.too_big(len, limit4, r.map(|_| None).map_err(|e| (e.actual.saturating_sub(hl), e.max_allowed.saturating_sub(hl))), true);
                 }
             }
-            let mut th = TransportHeader::Tcp(tcp.clone());
+            let mut th = TransportHeader::Tcp({
+                let mut t = tcp.clone();
+                t.checksum = 0xbeef;
+                t
+            });
             let before = th.clone();
             let r = th.update_checksum_ipv4(&ip4, p);
             rep.evals += 1;
@@ -479,12 +486,33 @@ impl C14 {
                     let r = Icmpv6Header::with_checksum(icmp.clone(), [1; 16], [2; 16], p);
                     let mut v = Verdict { rep, api: "Icmpv6Header::with_checksum" };
                     v.too_big(len, limit6_icmp, r.map(|_| None).map_err(|e| (e.actual, e.max_allowed)), true);
+                    // (a header that already holds a checksum: "unchanged" is only visible then)
                     let mut ih = Icmpv6Header::new(icmp.clone());
+                    ih.checksum = 0x1234;
                     let before = ih.clone();
                     let r = ih.update_checksum([1; 16], [2; 16], p);
                     let unchanged = r.is_ok() || ih == before;
                     let mut v = Verdict { rep, api: "Icmpv6Header::update_checksum" };
                     v.too_big(len, limit6_icmp, r.map(|_| None).map_err(|e| (e.actual, e.max_allowed)), unchanged);
+                    if len > limit6_icmp {
+                        // the same through the transport header wrapper, for all three kinds
+                        let mut u = udp.clone();
+                        u.checksum = 0x4321;
+                        let mut t = tcp.clone();
+                        t.checksum = 0x4321;
+                        for mut th in [TransportHeader::Icmpv6(before.clone()), TransportHeader::Udp(u), TransportHeader::Tcp(t)] {
+                            let prior = th.clone();
+                            let r = th.update_checksum_ipv6(&ip6, p);
+                            rep.evals += 1;
+                            if r.is_ok() {
+                                rep.violation("accept_vs_limit|TransportHeader::update_checksum_ipv6", format!("length {} accepted for {:?}", len, prior), &[]);
+                            } else if th != prior {
+                                rep.violation("modified_on_error|TransportHeader::update_checksum_ipv6", format!("length {}: {:?} became {:?}", len, prior, th), &[]);
+                            } else {
+                                rep.count("rejected.TransportHeader::update_checksum_ipv6(unchanged)");
+                            }
+                        }
+                    }
                 }
             }
         }
